@@ -291,15 +291,22 @@ def run(ctx):
             if isinstance(v, ast.Constant) and v.value in (True, False):
                 r2.ok(site(f, rn.ast), "constant %s" % v.value)
                 continue
-            kind = None
-            if isinstance(v, (ast.Compare, ast.BoolOp)) or (isinstance(v, ast.UnaryOp) and isinstance(v.op, ast.Not)):
-                kind = "boolean expression"
-            elif isinstance(v, ast.Call):
-                tg = ext_targets(prog, f, v)
-                if tg and all((k == "ext" and t in ALWAYS_TRUTHY_RESULT) or (k == "func" and t.mod.name == "_format") for k, t in tg):
-                    kind = "delegate result, always truthy (%s)" % "; ".join(sorted({ALWAYS_TRUTHY_RESULT.get(t, "package helper") if k == "ext" else "package helper" for k, t in tg}))
-                elif norm(v.func) == "bool":
-                    kind = "bool(...)"
+            def verdict_kind(v):
+                if isinstance(v, ast.Constant) and v.value in (True, False):
+                    return "constant"
+                if isinstance(v, (ast.Compare, ast.BoolOp)) or (isinstance(v, ast.UnaryOp) and isinstance(v.op, ast.Not)):
+                    return "boolean expression"
+                if isinstance(v, ast.IfExp):
+                    a, b = verdict_kind(v.body), verdict_kind(v.orelse)
+                    return "%s / %s" % (a, b) if a and b else None
+                if isinstance(v, ast.Call):
+                    tg = ext_targets(prog, f, v)
+                    if tg and all((k == "ext" and t in ALWAYS_TRUTHY_RESULT) or (k == "func" and t.mod.name == "_format") for k, t in tg):
+                        return "delegate result, always truthy (%s)" % "; ".join(sorted({ALWAYS_TRUTHY_RESULT.get(t, "package helper") if k == "ext" else "package helper" for k, t in tg}))
+                    if norm(v.func) == "bool":
+                        return "bool(...)"
+                return None
+            kind = verdict_kind(v)
             if kind:
                 r2.ok(site(f, rn.ast), "%s: %s" % (norm(v)[:50], kind))
             else:
@@ -327,7 +334,42 @@ def run(ctx):
                         ascii_flag = any("ASCII" in norm(a) for a in e2.args[2:])
                     if pat is not None and _full_date_regex(pat, ascii_flag):
                         tests.append((t, "true"))
-            if tests and only_via_edge(cfg, n, tests, True):
+            def shape_expr(e2, depth=0):
+                """e2 is true only if the instance fully matched the date shape: <regex>.fullmatch(instance) itself, a local
+                bound once to it, or `<that> is not None`."""
+                if depth > 3:
+                    return False
+                if isinstance(e2, ast.Compare) and len(e2.ops) == 1 and isinstance(e2.ops[0], ast.IsNot) and isinstance(e2.comparators[0], ast.Constant) \
+                        and e2.comparators[0].value is None:
+                    return shape_expr(e2.left, depth + 1)
+                if isinstance(e2, ast.Name):
+                    defs = [x.value for x in walk_body(f) if isinstance(x, ast.Assign) and any(isinstance(t2, ast.Name) and t2.id == e2.id for t2 in x.targets)]
+                    return len(defs) == 1 and shape_expr(defs[0], depth + 1)
+                if isinstance(e2, ast.Call) and isinstance(e2.func, ast.Attribute) and e2.func.attr == "fullmatch" and e2.args and norm(e2.args[-1]) == p:
+                    pat, ascii_flag = None, False
+                    if len(e2.args) == 1:
+                        rr = prog.resolve_expr(f.mod, e2.func.value, f)
+                        if isinstance(rr, tuple) and rr[0] == "expr" and isinstance(rr[2], ast.Call) and rr[2].args and isinstance(rr[2].args[0], ast.Constant):
+                            pat = rr[2].args[0].value
+                            ascii_flag = any("ASCII" in norm(a) for a in rr[2].args[1:]) or any("ASCII" in norm(k.value) for k in rr[2].keywords)
+                    elif isinstance(e2.args[0], ast.Constant):
+                        pat = e2.args[0].value
+                        ascii_flag = any("ASCII" in norm(a) for a in e2.args[2:])
+                    return pat is not None and _full_date_regex(pat, ascii_flag)
+                return False
+            tests += [(t, "true") for t in cfg.live if t.kind == "test" and shape_expr(t.ast) and not any(t is t0 for (t0, _l) in tests)]
+            tests += [(t, "false") for t in cfg.live if t.kind == "test" and isinstance(t.ast, ast.Compare) and len(t.ast.ops) == 1 and isinstance(t.ast.ops[0], ast.Is)
+                      and isinstance(t.ast.comparators[0], ast.Constant) and t.ast.comparators[0].value is None and shape_expr(t.ast.left)]
+            # the delegate call may also be guarded inside its own expression: `<shape> and delegate(x)` / `delegate(x) if <shape> else ...`
+            inline = False
+            for x in walk_body(f):
+                if isinstance(x, ast.BoolOp) and isinstance(x.op, ast.And):
+                    for i, v2 in enumerate(x.values):
+                        if any(y is c for y in ast.walk(v2)) and any(shape_expr(u) for u in x.values[:i]):
+                            inline = True
+                if isinstance(x, ast.IfExp) and any(y is c for y in ast.walk(x.body)) and shape_expr(x.test):
+                    inline = True
+            if inline or (tests and only_via_edge(cfg, n, tests, True)):
                 r3.ok(site(f, c), "%s only after a full match of the YYYY-MM-DD shape" % tgt)
             else:
                 r3.fail("%s|superset-delegate|%s" % (f.qual, tgt), site(f, c),
